@@ -16,7 +16,7 @@ from typing_extensions import Literal
 
 from spil.sid.sid import Sid
 from spil.sid.read.util import first
-from spil.conf import extension_alias, search_symbols  # type: ignore
+from spil.conf import extension_alias, search_symbols, sip  # type: ignore
 from spil.sid.read.tools import unfold_search
 
 
@@ -78,12 +78,14 @@ class Finder:
         Returns:
             Generator over Sids or strings
         """
-        # shortcut if Sid is not a search
-        # (an unapplied query or an extension alias as last value still need to be unfolded)
+        # shortcut if the given search is a plain Sid: typed, no search symbol, no query, no extension alias.
+        # Everything else is unfolded: a search with a query is a filter expression
+        # (its string may be typed by multiple templates, and each typed reading is searched).
         sid = Sid(search_sid)
-        # (search symbols are looked up in the given search: a query may have replaced them in the Sid, eg. "**")
-        is_search = sid.is_search() or any(symbol in str(search_sid) for symbol in search_symbols)
-        if sid and not is_search and not sid.string.count("?") and sid.get(sid.keytype) not in extension_alias:
+        given = str(search_sid)
+        is_search = sid.is_search() or any(symbol in given for symbol in search_symbols)
+        is_plain = not is_search and not given.count("?") and given.split(sip)[-1] not in extension_alias
+        if sid and is_plain:
             generator = self.do_find([sid], as_sid=as_sid)
         else:
             search_sids = unfold_search(search_sid)
